@@ -50,7 +50,8 @@ def apply_carry(rng, adoc):
 
 
 def gen(rng):
-  adoc, classes = model_docs.generate(rng, "text", None, p_uspace=0.1)
+  # (p_markup: words carrying & < > and entity look-alikes - what the cue shows is the text itself, after one round of unescaping)
+  adoc, classes = model_docs.generate(rng, "text", None, p_uspace=0.1, p_markup=0.12)
   if adoc.body is not None and rng.random() < 0.25:
     apply_carry(rng, adoc)
     classes = set(classes) | {"carry-offset"}
